@@ -130,6 +130,38 @@ def co_get(q):
     return q.items.pop(0)
 
 
+class CoFuture:
+    """future of a model task; .result() inside co-versioned code is a blocking point"""
+
+    def __init__(self):
+        self._done = False
+        self._res = None
+        self._exc = None
+
+    def done(self):
+        return self._done
+
+    def finish(self, res=None, exc=None):
+        self._res, self._exc, self._done = res, exc, True
+
+    def result(self, timeout=None):
+        if not self._done:
+            raise RuntimeError('untransformed code would block on a future')
+        if self._exc is not None:
+            raise self._exc
+        return self._res
+
+
+def co_result(f):
+    if not isinstance(f, CoFuture):
+        return f.result()
+    while not f._done:
+        yield ('blocked', f)
+    if f._exc is not None:
+        raise f._exc
+    return f._res
+
+
 def co_event_wait(ev):
     while not ev.flag:
         yield ('blocked', ev)
@@ -210,6 +242,8 @@ class CoTransformer(ast.NodeTransformer):
                 return ast.YieldFrom(ast.Call(ast.Name('co_wait', ast.Load()), [f.value], []))
             if f.attr == 'wait' and isinstance(f.value, ast.Attribute) and f.value.attr.endswith('event'):
                 return ast.YieldFrom(ast.Call(ast.Name('co_event_wait', ast.Load()), [f.value], []))
+            if f.attr == 'result' and isinstance(f.value, ast.Name) and not node.args and not node.keywords:
+                return ast.YieldFrom(ast.Call(ast.Name('co_result', ast.Load()), [f.value], []))
             if f.attr == 'get' and isinstance(f.value, ast.Attribute) and f.value.attr.endswith('queue') \
                     and not node.args:
                 return ast.YieldFrom(ast.Call(ast.Name('co_get', ast.Load()), [f.value], []))
@@ -219,7 +253,7 @@ class CoTransformer(ast.NodeTransformer):
 def make_co(cls, names, module, shared=None):
     """install _co_<name> generator versions of the listed methods on cls; returns the names that were found"""
     ns = dict(vars(module))
-    ns.update(co_acquire=co_acquire, co_wait=co_wait, co_get=co_get, co_event_wait=co_event_wait)
+    ns.update(co_acquire=co_acquire, co_wait=co_wait, co_get=co_get, co_event_wait=co_event_wait, co_result=co_result)
     done = []
     for name in names:
         fn = cls.__dict__.get(name)
